@@ -163,3 +163,183 @@ Proof.
   destruct (Hws l Hl x Hx) as [Hsp Hne]. split; [exact Hne|].
   intro E. subst x. vm_compute in Hsp. discriminate.
 Qed.
+
+(* ---------- what follows the signature block ---------- *)
+
+Lemma drop_lines_app_stop p (a b : list str) x r :
+  drop_lines p a = x :: r -> drop_lines p (a ++ b) = (x :: r) ++ b.
+Proof.
+  induction a as [|l a IH]; intro H; [discriminate|].
+  cbn [drop_lines app] in *. destruct (p l).
+  - exact (IH H).
+  - injection H as <- <-. reflexivity.
+Qed.
+
+(* the armor block at the head of a list of lines is found whatever lines follow it *)
+Lemma armor_match_app sig trail : armor_match sig = true -> armor_match (sig ++ trail) = true.
+Proof.
+  destruct sig as [|l0 rest]; [discriminate|]. cbn [app]. unfold armor_match.
+  destruct (armor_begin l0) as [magic|]; [|discriminate].
+  destruct (drop_lines is_header_line rest) as [|h1 r1] eqn:E1; [discriminate|].
+  rewrite (drop_lines_app_stop _ rest trail h1 r1 E1). cbn [app].
+  destruct (is_eol h1).
+  - (* the empty line after the headers *)
+    destruct r1 as [|b0 r1']; [discriminate|]. cbn [app].
+    destruct (is_body_line b0) eqn:Eb0; [|discriminate].
+    destruct (drop_lines is_body_line (b0 :: r1')) as [|crc r2] eqn:E2; [discriminate|].
+    change (b0 :: r1' ++ trail) with ((b0 :: r1') ++ trail).
+    rewrite (drop_lines_app_stop _ (b0 :: r1') trail crc r2 E2). cbn [app].
+    destruct r2 as [|endl r3]; [discriminate|]. cbn [app]. exact (fun H => H).
+  - destruct (is_body_line h1) eqn:Eb0; [|discriminate].
+    destruct (drop_lines is_body_line (h1 :: r1)) as [|crc r2] eqn:E2; [discriminate|].
+    change (h1 :: r1 ++ trail) with ((h1 :: r1) ++ trail).
+    rewrite (drop_lines_app_stop _ (h1 :: r1) trail crc r2 E2). cbn [app].
+    destruct r2 as [|endl r3]; [discriminate|]. cbn [app]. exact (fun H => H).
+Qed.
+
+Lemma armor_match_no_dashes l rest : no_dashes l -> armor_match (l :: rest) = false.
+Proof. intro H. unfold armor_match. rewrite (no_dashes_no_armor l H). reflexivity. Qed.
+
+
+(* the armor block read in stages, to say where it stops *)
+Definition stage3 (magic : str) (r2 : list str) : bool :=
+  match r2 with
+  | b0 :: _ =>
+      if is_body_line b0 then
+        match drop_lines is_body_line r2 with
+        | crc :: endl :: _ => is_crc_line crc && startswith (lit "-----END PGP " ++ magic ++ dashes5) endl
+        | _ => false
+        end
+      else false
+  | [] => false
+  end.
+Definition stage2 (magic : str) (r1 : list str) : bool :=
+  stage3 magic (match r1 with l :: r => if is_eol l then r else r1 | [] => r1 end).
+Definition armor_tail (magic : str) (rest : list str) : bool := stage2 magic (drop_lines is_header_line rest).
+
+Lemma armor_match_tail l0 rest :
+  armor_match (l0 :: rest) = match armor_begin l0 with None => false | Some m => armor_tail m rest end.
+Proof. reflexivity. Qed.
+
+Lemma Forall_drop_lines (P : str -> Prop) p ls : Forall P ls -> Forall P (drop_lines p ls).
+Proof.
+  induction 1 as [|l ls Hl H IH]; [constructor|]. cbn [drop_lines].
+  destruct (p l); [exact IH|constructor; assumption].
+Qed.
+
+Lemma drop_lines_app p (a b : list str) :
+  drop_lines p (a ++ b) = match drop_lines p a with [] => drop_lines p b | l => l ++ b end.
+Proof.
+  induction a as [|l a IH]; [reflexivity|]. cbn [app drop_lines].
+  destruct (p l); [exact IH|reflexivity].
+Qed.
+
+Lemma no_dashes_not_end magic l : no_dashes l -> startswith (lit "-----END PGP " ++ magic ++ dashes5) l = false.
+Proof.
+  intro H. destruct (startswith (lit "-----END PGP " ++ magic ++ dashes5) l) eqn:E; [|reflexivity].
+  change (lit "-----END PGP " ++ magic ++ dashes5) with (dashes5 ++ (lit "END PGP " ++ magic ++ dashes5)) in E.
+  apply startswith_app_l in E. unfold no_dashes in H. congruence.
+Qed.
+
+Lemma stage3_dashfree m r2 : Forall no_dashes r2 -> stage3 m r2 = false.
+Proof.
+  intro H. unfold stage3. destruct r2 as [|b0 r]; [reflexivity|].
+  destruct (is_body_line b0); [|reflexivity].
+  pose proof (Forall_drop_lines no_dashes is_body_line (b0 :: r) H) as Hd.
+  destruct (drop_lines is_body_line (b0 :: r)) as [|crc [|endl r3]]; try reflexivity.
+  inversion Hd as [|? ? _ Hd2]. inversion Hd2 as [|? ? He _]. subst.
+  rewrite (no_dashes_not_end m endl He). apply andb_false_r.
+Qed.
+
+Lemma stage3_app_inv m x trail : Forall no_dashes trail -> stage3 m (x ++ trail) = true -> stage3 m x = true.
+Proof.
+  intros Ht H. destruct x as [|b0 r].
+  - cbn [app] in H. rewrite (stage3_dashfree m trail Ht) in H. discriminate.
+  - unfold stage3 in *. cbn [app] in H. destruct (is_body_line b0) eqn:Eb; [|discriminate].
+    change (b0 :: r ++ trail) with ((b0 :: r) ++ trail) in H. rewrite drop_lines_app in H.
+    destruct (drop_lines is_body_line (b0 :: r)) as [|crc [|endl r3]].
+    + pose proof (Forall_drop_lines no_dashes is_body_line trail Ht) as Hd.
+      destruct (drop_lines is_body_line trail) as [|crc [|endl r3]]; try discriminate.
+      inversion Hd as [|? ? _ Hd2]. inversion Hd2 as [|? ? He _]. subst.
+      rewrite (no_dashes_not_end m endl He), andb_false_r in H. discriminate.
+    + cbn [app] in H. destruct trail as [|endl tr]; [discriminate|].
+      inversion Ht as [|? ? He _]. subst.
+      rewrite (no_dashes_not_end m endl He), andb_false_r in H. discriminate.
+    + cbn [app] in H. exact H.
+Qed.
+
+Lemma stage2_dashfree m r1 : Forall no_dashes r1 -> stage2 m r1 = false.
+Proof.
+  intro H. unfold stage2. apply stage3_dashfree.
+  destruct r1 as [|l r]; [constructor|]. destruct (is_eol l); [inversion H; assumption|exact H].
+Qed.
+
+Lemma stage2_app_inv m x trail : Forall no_dashes trail -> stage2 m (x ++ trail) = true -> stage2 m x = true.
+Proof.
+  intros Ht H. destruct x as [|l r].
+  - cbn [app] in H. rewrite (stage2_dashfree m trail Ht) in H. discriminate.
+  - unfold stage2 in *. cbn [app] in H. destruct (is_eol l).
+    + exact (stage3_app_inv m r trail Ht H).
+    + exact (stage3_app_inv m (l :: r) trail Ht H).
+Qed.
+
+Lemma armor_tail_app_inv m x trail : Forall no_dashes trail -> armor_tail m (x ++ trail) = true -> armor_tail m x = true.
+Proof.
+  intros Ht H. unfold armor_tail in *. rewrite drop_lines_app in H.
+  destruct (drop_lines is_header_line x) as [|h r] eqn:E.
+  - rewrite (stage2_dashfree m _ (Forall_drop_lines no_dashes is_header_line trail Ht)) in H. discriminate.
+  - exact (stage2_app_inv m (h :: r) trail Ht H).
+Qed.
+
+(* dash-free lines after a list of lines complete no armor block in it *)
+Theorem armor_match_app_inv x trail : Forall no_dashes trail -> armor_match (x ++ trail) = true -> armor_match x = true.
+Proof.
+  intros Ht H. destruct x as [|l0 rest].
+  - cbn [app] in H. destruct trail as [|t tr]; [discriminate|].
+    inversion Ht as [|? ? Hd _]. subst. rewrite (armor_match_no_dashes t tr Hd) in H. discriminate.
+  - cbn [app] in H. rewrite armor_match_tail in *. destruct (armor_begin l0) as [m|]; [|discriminate].
+    exact (armor_tail_app_inv m rest trail Ht H).
+Qed.
+
+Theorem no_inner_block_trailing sig trail :
+  no_inner_block sig -> Forall no_dashes trail -> no_inner_block (sig ++ trail).
+Proof.
+  intros Hin Htr k Hk. rewrite app_length in Hk.
+  destruct (Nat.lt_ge_cases k (length sig)) as [Hlt|Hge].
+  - rewrite skipn_app. replace (k - length sig)%nat with 0%nat by lia. cbn [skipn].
+    destruct (armor_match (skipn k sig ++ trail)) eqn:E; [|reflexivity].
+    apply (armor_match_app_inv _ _ Htr) in E. rewrite (Hin k) in E; [discriminate|lia].
+  - rewrite skipn_app, skipn_all2 by exact Hge. cbn [app].
+    assert (Hf : Forall no_dashes (skipn (k - length sig) trail)).
+    { apply Forall_forall. intros y Hy. rewrite Forall_forall in Htr. apply Htr.
+      rewrite <- (firstn_skipn (k - length sig) trail). apply in_or_app. right. exact Hy. }
+    destruct (skipn (k - length sig) trail) as [|y r] eqn:E; [reflexivity|].
+    apply armor_match_no_dashes. inversion Hf; assumption.
+Qed.
+
+(* the well-formed message theorems with dash-free lines before the message and after its signature block *)
+Corollary wellformed_with_hash_around pre0 l0 h e pre l sig trail :
+  Forall no_dashes pre0 -> Forall no_dashes trail ->
+  is_begin_signed l0 = true -> is_hash_line h = true -> is_eol e = true ->
+  sig <> [] -> armor_match sig = true -> no_inner_block sig -> ends_lf l = true ->
+  pgp_search_lines (pre0 ++ l0 :: h :: e :: pre ++ l :: sig ++ trail) = Some (Some (concat pre ++ chop_lf l)).
+Proof.
+  intros H0 Ht H1 H2 H3 H4 H5 H6 H7.
+  apply wellformed_with_hash_after; try assumption.
+  - intro E. apply app_eq_nil in E. destruct E as [E _]. contradiction.
+  - apply armor_match_app. exact H5.
+  - apply no_inner_block_trailing; assumption.
+Qed.
+
+Corollary wellformed_without_hash_around pre0 l0 e pre l sig trail :
+  Forall no_dashes pre0 -> Forall no_dashes trail ->
+  is_begin_signed l0 = true -> is_eol e = true ->
+  sig <> [] -> armor_match sig = true -> no_inner_block sig -> ends_lf l = true ->
+  pgp_search_lines (pre0 ++ l0 :: e :: pre ++ l :: sig ++ trail) = Some (Some (concat pre ++ chop_lf l)).
+Proof.
+  intros H0 Ht H1 H3 H4 H5 H6 H7.
+  apply wellformed_without_hash_after; try assumption.
+  - intro E. apply app_eq_nil in E. destruct E as [E _]. contradiction.
+  - apply armor_match_app. exact H5.
+  - apply no_inner_block_trailing; assumption.
+Qed.
